@@ -1,7 +1,8 @@
 // Generic x86/x64 emit driver (C01/C13/C14/C20): reads case lines, calls the public emitter API, reports what happened.
 // No oracle logic here beyond recording; oracles live in vlib/*.py.
 //
-// case line: <id> <arch> <inst-name|#id> <opts-hex> <extra|-> <nops> <op>...
+// case line: <id> <arch> <inst-name|#id> <opts-hex> <extra|-> <nops> <op>... [eo=<EncodingOptions hex>]
+// (eo applies to this one case: the options are added before the call and cleared after it)
 #include <asmjit/core.h>
 #include <asmjit/x86.h>
 #include <asmjit/a64.h>
@@ -9,6 +10,7 @@
 #include <iostream>
 #include <sstream>
 #include <fstream>
+#include <map>
 
 using namespace asmjit;
 
@@ -54,11 +56,19 @@ static std::vector<std::string> split(const std::string& s, char c) {
 struct Env;
 static Env* g_shared_current = nullptr;   // --shared-emitter: the Env whose CodeHolder the one assembler is attached to
 
+enum EmitterKind { kAsm = 0, kBuilder = 1, kCompiler = 2 };
+
 struct Env {
   Environment env;
   CodeHolder code;
   x86::Assembler a;
   x86::Assembler* ap = &a;   // --shared-emitter: both Envs point to the same object, re-attached when the mode changes
+  // --emitter builder|compiler: the instruction is only appended as a node (no bytes); what is observed is the verdict of
+  // DiagnosticOptions::kValidateIntermediate. The compiler replaces GP / vector / mask / MMX registers by virtual ones.
+  x86::Builder b;
+  x86::Compiler cc;
+  int kind = kAsm;
+  BaseEmitter* em() { return kind == kBuilder ? static_cast<BaseEmitter*>(&b) : kind == kCompiler ? static_cast<BaseEmitter*>(&cc) : static_cast<BaseEmitter*>(ap); }
   bool shared = false;
   StringLogger logger;
   CountingHandler eh;
@@ -79,7 +89,11 @@ struct Env {
       logger.set_flags(FormatFlags(format_flags));
       code.set_logger(&logger);
     }
-    if (!shared || g_shared_current == this) {
+    if (kind != kAsm) {
+      code.attach(em());
+      if (validate) em()->add_diagnostic_options(DiagnosticOptions::kValidateIntermediate);
+    }
+    else if (!shared || g_shared_current == this) {
       code.attach(ap);
       if (validate) ap->add_diagnostic_options(DiagnosticOptions::kValidateAssembler);
     }
@@ -126,7 +140,11 @@ int main(int argc, char** argv) {
 
   Env envs[2];
   bool shared_emitter = args.u64("shared-emitter", 0) != 0;
+  std::string emitter = args.str("emitter", "asm");
+  int kind = emitter == "builder" ? kBuilder : emitter == "compiler" ? kCompiler : kAsm;
+  if (kind != kAsm) shared_emitter = false;
   for (int i = 0; i < 2; i++) {
+    envs[i].kind = kind;
     if (shared_emitter) { envs[i].shared = true; envs[i].ap = &envs[0].a; }
     envs[i].validate = validate;
     envs[i].use_logger = use_logger;
@@ -149,8 +167,33 @@ int main(int argc, char** argv) {
     Env& E = envs[arch == "x64" ? 1 : 0];
     if (++E.cases_since_reset > 1500) E.reinit();
     E.use();
-    x86::Assembler& a = *E.ap;
+    BaseEmitter& a = *E.em();
     Arch A = arch == "x64" ? Arch::kX64 : Arch::kX86;
+    // compiler: one virtual register per (register group, physical id) of the case, viewed through the operand's own type
+    std::map<uint32_t, uint32_t> vmap;
+    auto virt = [&](const Reg& r) -> Reg {
+      if (kind != kCompiler) return r;
+      Reg ref;
+      uint32_t group;
+      switch (r.reg_type()) {
+        case RegType::kGp8Lo: case RegType::kGp16: case RegType::kGp32: case RegType::kGp64:
+          group = 0; ref = A == Arch::kX64 ? Reg(x86::rax) : Reg(x86::eax); break;
+        case RegType::kVec128: case RegType::kVec256: case RegType::kVec512:
+          group = 1; ref = Reg::from_type_and_id(r.reg_type(), 0); break;
+        case RegType::kMask: group = 2; ref = x86::k0; break;
+        case RegType::kX86_Mm: group = 3; ref = x86::mm0; break;
+        default: return r;
+      }
+      if (r.reg_type() == RegType::kGp64 && A != Arch::kX64) return r;
+      uint32_t key = (group << 8) | r.id();
+      auto it = vmap.find(key);
+      if (it == vmap.end()) {
+        Reg out;
+        if (E.cc._new_reg(Out<Reg>(out), ref) != Error::kOk) return r;
+        it = vmap.insert(std::make_pair(key, out.id())).first;
+      }
+      return Reg::from_type_and_id(r.reg_type(), it->second);
+    };
 
     InstId inst_id;
     if (name[0] == '#') inst_id = (InstId)strtoul(name.c_str() + 1, nullptr, 0);
@@ -163,7 +206,7 @@ int main(int argc, char** argv) {
       std::string tok; ss >> tok;
       std::vector<std::string> p = split(tok, ':');
       if (p[0] == "R") {
-        ops[i] = Reg::from_type_and_id(reg_type_of(p[1]), (uint32_t)strtoul(p[2].c_str(), nullptr, 0));
+        ops[i] = virt(Reg::from_type_and_id(reg_type_of(p[1]), (uint32_t)strtoul(p[2].c_str(), nullptr, 0)));
       }
       else if (p[0] == "I") {
         ops[i] = Imm((int64_t)strtoll(p[1].c_str(), nullptr, 0));
@@ -189,7 +232,7 @@ int main(int argc, char** argv) {
         std::string addr = p[10];
         x86::Mem m;
         bool has_index = it != "none";
-        Reg idx = has_index ? Reg::from_type_and_id(reg_type_of(it), iid) : Reg();
+        Reg idx = has_index ? virt(Reg::from_type_and_id(reg_type_of(it), iid)) : Reg();
         if (bt == "none") {
           m = has_index ? x86::Mem(uint64_t(disp), idx, shift, size) : x86::Mem(uint64_t(disp), size);
         }
@@ -198,7 +241,7 @@ int main(int argc, char** argv) {
           m = has_index ? x86::Mem(self_label, idx, shift, int32_t(disp), size) : x86::Mem(self_label, int32_t(disp), size);
         }
         else {
-          Reg base = Reg::from_type_and_id(reg_type_of(bt), bid);
+          Reg base = virt(Reg::from_type_and_id(reg_type_of(bt), bid));
           m = has_index ? x86::Mem(base, idx, shift, int32_t(disp), size) : x86::Mem(base, int32_t(disp), size);
         }
         if (seg) m.set_segment(seg);
@@ -209,6 +252,10 @@ int main(int argc, char** argv) {
       }
       else bad = true;
     }
+
+    uint32_t eo = 0;
+    { std::string tok; while (ss >> tok) if (tok.compare(0, 3, "eo=") == 0) eo = (uint32_t)strtoul(tok.c_str() + 3, nullptr, 16); }
+    if (eo) a.add_encoding_options(EncodingOptions(eo));
 
     uint32_t opts = (uint32_t)strtoul(opts_s.c_str(), nullptr, 16);
     Reg extra_reg;
@@ -225,7 +272,7 @@ int main(int argc, char** argv) {
       verr = int(InstAPI::validate(A, bi, ops, (size_t)nops, ValidationFlags::kNone));
     }
 
-    size_t off0 = a.offset();
+    size_t off0 = kind == kAsm ? E.ap->offset() : 0;
     size_t labels0 = E.code.label_count();
     size_t fix0 = E.code.unresolved_fixup_count();
     size_t rel0 = E.code.reloc_entries().size();
@@ -239,7 +286,8 @@ int main(int argc, char** argv) {
       try { err = a.emit_op_array(inst_id, ops, (size_t)nops); }
       catch (int e) { threw = true; err = Error(e); }
     }
-    size_t off1 = a.offset();
+    size_t off1 = kind == kAsm ? E.ap->offset() : 0;
+    if (eo) a.clear_encoding_options(EncodingOptions(eo));
     bool oneshot_left = uint32_t(a.inst_options()) != 0 || a.extra_reg().is_reg() || a.inline_comment() != nullptr;
     if (oneshot_left) { a.reset_inst_options(); a.reset_extra_reg(); a.reset_inline_comment(); }
 
@@ -249,7 +297,7 @@ int main(int argc, char** argv) {
              E.code.label_count() - labels0, E.code.unresolved_fixup_count() - fix0,
              E.code.reloc_entries().size() - rel0, E.code.section_count() - sec0);
     out += head;
-    if (off1 > off0) out += hexstr(a.buffer_data() + off0, off1 - off0);
+    if (off1 > off0) out += hexstr(E.ap->buffer_data() + off0, off1 - off0);
     out += "\"";
     if (off1 < off0) out += ",\"shrunk\":1";
     if (api_validate) { char vb[64]; snprintf(vb, sizeof vb, ",\"v\":%d,\"iid\":%u", verr, unsigned(inst_id)); out += vb; }
